@@ -7,6 +7,11 @@ from core.runner import Prop
 from . import mp_common as mp
 
 
+def _fresh(x):
+    """an equal but separately created object (callers name the root by value, not by handing back the graph's own object)"""
+    return int(str(x)) if isinstance(x, int) and not isinstance(x, bool) else x
+
+
 def exact_numeric(nodes, edges, root, u, p):
     """brute force over all open-edge sets, in exact rationals"""
     E, total = len(edges), Fraction(0)
@@ -90,9 +95,9 @@ class C15(Prop):
         if case["kind"] == "one":
             AE = AutomatedEquation()
             H = mp.build_nx(case["nodes"], case["edges"], case.get("name", "m"))      # the name is a label, not a description
-            val = AE.automated_equation(H, p, case["root"])
+            val = AE.automated_equation(H, p, _fresh(case["root"]))
             AE2 = AutomatedEquation()
-            comps = AE2.get_connected_subgraphs(H, case["root"])
+            comps = AE2.get_connected_subgraphs(H, _fresh(case["root"]))
             numeric = []
             for pt in case.get("points", []):
                 u = {}
@@ -100,16 +105,16 @@ class C15(Prop):
                     x = Fraction(pt["u"][str(v)])
                     u[v] = (0 if pt["zero_as"] == "int" else Fraction(0)) if x == 0 else (1 if x == 1 and pt["zero_as"] == "int" else x)
                 Hn = mp.build_nx(case["nodes"], case["edges"], case.get("name", "num"), u=u)
-                numeric.append(rs(Fraction(AutomatedEquation().automated_equation(Hn, Fraction(pt["phi"]), case["root"]))))
+                numeric.append(rs(Fraction(AutomatedEquation().automated_equation(Hn, Fraction(pt["phi"]), _fresh(case["root"])))))
             return {"poly": mp.poly_canon(val), "components": sorted(sorted(c) for c in comps),
                     "n_components": len(comps), "numeric": numeric}
         AE = AutomatedEquation()
         vals, fresh = [], []
         for c in case["calls"]:
             H = mp.build_nx(c["nodes"], c["edges"], c["name"])
-            vals.append(mp.poly_canon(AE.automated_equation(H, p, c["root"])))
+            vals.append(mp.poly_canon(AE.automated_equation(H, p, _fresh(c["root"]))))
             fresh.append(mp.poly_canon(AutomatedEquation().automated_equation(
-                mp.build_nx(c["nodes"], c["edges"], c["name"]), p, c["root"])))
+                mp.build_nx(c["nodes"], c["edges"], c["name"]), p, _fresh(c["root"]))))
         return {"polys": vals, "fresh": fresh}
 
     def request(self, case, obs):
